@@ -93,8 +93,7 @@ COMPONENTS = [
       ('MC_hb3.cfg', 'ConcurrentObjectArena buffer size 2: grow_by(4) = in-place + table doubling in one critical section, 3 growers, copy/swap/move', 'quick'),
       ('MC_hb2.cfg', 'ConcurrentObjectArena buffer size 1, table 2->4->8: operator[] / getBuffer on old elements while the table is doubled twice', 'thorough'),
       ('MC_hb_nb_rest.cfg', 'program with a concurrent numBuffers(): all locations except buffersPos_', 'quick'),
-      # violated on the current sources: open known finding (numBuffers() reads the plain buffersPos_)
-      ('MC_hbx_nb.cfg', 'numBuffers() ("Concurrency safe") vs allocateBuffer(): plain buffersPos_', 'quick')]),
+      ('MC_hbx_nb.cfg', 'numBuffers() ("Concurrency safe") vs allocateBuffer() (buffersPos_ atomic since the fix)', 'quick')]),
 ]
 # components whose code uses std::atomic_thread_fence: composed with spec/lib/MemOrderF.tla.  `tentative` cfgs additionally
 # count the discarded tentative reads of losing stealers: a violation there is replayed on the real deque and reported
